@@ -30,6 +30,6 @@ open Jedi
 obligation of the properties whose models mirror it -/
 
 /-- non-vacuity: the tables are not empty (564 function definitions on the current tree). -/
-example : 5 ≤ Gen.Mirrors.c11.length ∧ 5 ≤ Gen.Mirrors.c08.length ∧ Gen.Mirrors.c16.length = 5 := by decide
+example : 5 ≤ Gen.Mirrors.c11.length ∧ 5 ≤ Gen.Mirrors.c08.length ∧ 5 ≤ Gen.Mirrors.c16.length := by decide
 
 end Jedi.Mirrors
